@@ -204,3 +204,23 @@ def toRat? (a : F64) : Option Rat :=
   | _ => none
 
 end F64
+
+/-- `F64` as a `FloatLike`; libm's `ln`/`exp` are parameters -/
+@[reducible] def F64.inst (ln exp : F64 → F64) : FloatLike F64 where
+  add := F64.add
+  sub := F64.sub
+  mul := F64.mul
+  div := F64.div
+  neg := F64.neg
+  abs := F64.abs
+  fma := F64.fma
+  max := F64.max
+  ofDec := F64.ofDec
+  epsilon := F64.epsilon
+  lt := F64.lt
+  le := F64.le
+  feq := F64.feq
+  isNaN := F64.isNaN
+  isInf := F64.isInf
+  ln := ln
+  exp := exp
